@@ -1,6 +1,8 @@
 #!/bin/bash
 # merge the results of an interrupted tools/seed_sweep.sh run (/tmp/sweep_progress.txt) into seeded/SWEEP.txt
+# (the LAST line recorded for a change wins)
 cd /verif
-sort -u /tmp/sweep_progress.txt > /tmp/sweep_new.txt
+awk '{last[$1]=$0} END {for (k in last) print last[k]}' /tmp/sweep_progress.txt | sort > /tmp/sweep_new.txt
 awk 'NR==FNR {seen[$1]=1; print; next} !($1 in seen)' /tmp/sweep_new.txt seeded/SWEEP.txt | sort > /tmp/sweep_merged.txt
 mv /tmp/sweep_merged.txt seeded/SWEEP.txt; rm -f /tmp/sweep_new.txt
+wc -l seeded/SWEEP.txt
